@@ -421,7 +421,8 @@ REACTOR_OPTIONS = {
     'output_format': ('simulation.output_format', None, 'cat', ['CSV', 'DAT']),
 }
 # when a multi_* list is supplied without its scalar, write_yaml derives the scalar from the
-# first list entry (undocumented); the generator always supplies the scalar as well
+# first list entry (undocumented): the derived key is tolerated, and if present it must carry the
+# first list value with its unit
 MULTI_SCALAR = {'multi_T': 'T', 'multi_P': 'P', 'multi_flow_rate': 'flow_rate'}
 SI_STR_UNITS = {'V': ['cm3', 'm3', 'L'], 'P': ['atm', 'bar', 'Pa'], 'A': ['cm2', 'm2'], 'L': ['cm', 'm'],
                 'cat_abyv': ['/cm', '/m'], 'flow_rate': ['cm3/s', 'm3/s', 'cm3/min'],
@@ -447,8 +448,10 @@ def gen_reactor(rng, tier, **force):
     dom = force.get('dom') or rng.choice(['float', 'float', 'int', 'np.float64', 'np.int64', 'np.float32',
                                           'str', 'mixed'])
     opts = {}
+    # a multi_* list without its scalar: write_yaml derives the scalar from the first list entry
+    # (undocumented).  Half of the cases supply the scalar as well, half leave it to be derived.
     for o in list(chosen):
-        if o in MULTI_SCALAR and MULTI_SCALAR[o] not in chosen:
+        if o in MULTI_SCALAR and MULTI_SCALAR[o] not in chosen and rng.random() < 0.5:
             chosen.append(MULTI_SCALAR[o])
     for o in chosen:
         path, unit, fam, cats = REACTOR_OPTIONS[o]
